@@ -1,8 +1,9 @@
 #!/bin/bash
 # Runs every seeded change against the quick check of its property and records the verdict in meta.json.
 cd /verif
+# optional argument: a glob on the seed name, e.g. 'C??c_*'
 for d in seeded/*/; do
-  name=$(basename $d); id=${name%%_*}; id=${id:0:3}
+  name=$(basename $d); [ -n "${1:-}" ] && [[ "$name" != $1 ]] && continue; id=${name%%_*}; id=${id:0:3}
   [ -z "$(git -C /repo status --porcelain)" ] || { echo "/repo not clean"; exit 2; }
   git -C /repo apply /verif/$d/patch.diff || { echo "$name: patch does not apply"; continue; }
   out=$(./check $id --tier quick 2>&1); rc=$?
